@@ -1,4 +1,4 @@
-import Pypika.BuilderSlots
+import Pypika.BuilderSlotsComm
 /-!
 # Frame theorem of the concrete builder: a call writes only the slots listed for it
 
@@ -208,11 +208,10 @@ theorem step_frame (s s' : St) (c : Call) (h : step s c = .ok s') : SameOff (wri
 
 /-! ## Runs of calls -/
 
-set_option maxHeartbeats 2000000 in
 theorem eraseSlot_comm (w1 w2 : Slot) (s : St) : eraseSlot w1 (eraseSlot w2 s) = eraseSlot w2 (eraseSlot w1 s) := by
-  obtain ⟨⟨fl, _⟩, _, _, _, _⟩ := s
-  cases fl
-  cases w1 <;> cases w2 <;> rfl
+  by_cases h : w1 = w2
+  · subst h; rfl
+  · simp only [eraseSlot_eq]; exact copySlot_comm w1 w2 h _ _ _
 
 theorem eraseSlot_eraseAll (w : Slot) (ws : List Slot) (s : St) :
     eraseSlot w (eraseAll ws s) = eraseAll ws (eraseSlot w s) := by
